@@ -1,5 +1,6 @@
 import Mathlib.Analysis.Complex.Norm
 import GeomV.C19.Build
+import GeomV.C19.Heap
 /-!
 # C19 — property theorems
 -/
@@ -107,22 +108,48 @@ theorem pickMin_spec : PickSpec (pickMin : Pick α) := by
       rw [← h.2, ← h.1]
       simp [List.mem_filter]
 
-/-- **A\* is optimal** (gonum's loop as modelled: closed set without re-opening, heap abstracted to
-`PickSpec`).  For non-negative weights, a CONSISTENT heuristic and nodes `0 … n-1`, with fuel `≥ n+1`
+/-- the abstract list queue with ANY `pick` satisfying `PickSpec` is a queue in the sense of `QueueSpec`
+(no invariant needed): the theorems below hold for every tie-breaking rule -/
+theorem listQ_spec (pick : Pick α) (hP : PickSpec pick) : QueueSpec (listQ pick) (fun _ => True) := by
+  refine ⟨trivial, fun e => rfl, ?_, ?_, hP.none_iff, ?_⟩
+  · intro l e _ _
+    exact ⟨trivial, fun x => by simp [listQ]⟩
+  · intro l v g f _ _
+    refine ⟨trivial, fun x => ?_⟩
+    simp only [listQ, List.mem_map]
+    constructor
+    · rintro ⟨e, he, hee⟩
+      by_cases hev : e.node = v
+      · right; simp [hev] at hee; exact hee.symm
+      · left
+        have : (e.node == v) = false := by simpa using hev
+        simp [this] at hee; subst hee; exact ⟨he, hev⟩
+    · rintro (⟨hx, hxv⟩ | rfl)
+      · refine ⟨x, hx, ?_⟩
+        have : (x.node == v) = false := by simpa using hxv
+        simp [this]
+      · obtain ⟨e, he, hev⟩ := ‹∃ x ∈ l, x.node = v›
+        exact ⟨e, he, by simp [hev]⟩
+  · intro l m r _ h
+    exact ⟨hP.mem _ _ _ h, hP.min _ _ _ h, hP.rest _ _ _ h, trivial⟩
+
+/-- **A\* is optimal** (gonum's loop as modelled: closed set without re-opening; the queue is ANY
+implementation satisfying `QueueSpec` — gonum's binary heap `heapQ` (`heapQ_spec`) or the list queue with
+any tie-breaking rule (`listQ_spec`)).  For non-negative weights, a CONSISTENT heuristic and nodes `0 … n-1`, with fuel `≥ n+1`
 the loop terminates without a fault (no `fuel`, `badWeight`, `negWeight`), and either
 * `dist t = some c` where `c` is the minimum cost over all walks from `s` to `t`, and `Shortest.To`
   returns a walk from `s` to `t` of exactly that cost (no `noPrev`/`negCycle` fault), or
 * `dist t = none`, `t` is not reachable from `s`, and `Shortest.To` returns the empty path.
 Covers "whose cost … is minimal over all such chains" and "when the two nodes are not connected the
 route is empty" at the level of node paths. -/
-theorem astar_optimal (A : Adapter α) (G : Graph α) (pick : Pick α) (s t n fuel : Nat)
-    (hP : PickSpec pick) (hW : WeightsOk A G) (hC : Consistent G A.h t) (hr : InRange G n) (hs : s < n)
+theorem astar_optimal (A : Adapter α) (G : Graph α) (pick : Queue α) (Good : List (Entry α) → Prop) (s t n fuel : Nat)
+    (hP : QueueSpec pick Good) (hW : WeightsOk A G) (hC : Consistent G A.h t) (hr : InRange G n) (hs : s < n)
     (hf : n + 1 ≤ fuel) :
     ∃ st, astar A pick fuel s t = .ok st ∧
       ((∃ c p, st.dist t = some c ∧ IsMinCost G s t c ∧ shortestTo st s t (n + 2) = .ok (s :: p) ∧
           isWalk G s p ∧ endOf s p = t ∧ cost G s p = c) ∨
        (st.dist t = none ∧ ¬ Reachable G s t ∧ shortestTo st s t (n + 2) = .ok [])) := by
-  obtain ⟨st, h1, h2, h3⟩ := astarLoop_post hW hC hP hr fuel (astarInit A s t) (init_inv hs)
+  obtain ⟨st, h1, h2, h3⟩ := astarLoop_post hW hC hP hr fuel (astarInit A pick s t) (init_inv hP hs)
     (by simp [astarInit]; omega)
   refine ⟨st, h1, ?_⟩
   rcases h2 with ⟨c, p, hd, hmin, htree⟩ | ⟨hd, hnr⟩
@@ -256,9 +283,9 @@ and ANY map iteration order (`ord`), on a well-formed network without parallel l
 the call does not panic; the returned links form a chain from `s` to `t` (each link shares an end
 node with the next); the reported distance and time are the sums over the returned links; and the
 minimised quantity is minimal over ALL chains of links from `s` to `t`. -/
-theorem C19_route (geo : Geo α) (pick : Pick α) (ord : Nat → List Nat → List Nat) (net : Net α)
+theorem C19_route (geo : Geo α) (pick : Queue α) (Good : List (Entry α) → Prop) (ord : Nat → List Nat → List Nat) (net : Net α)
     (from_ to_ : Pt α) (s t : MNode α)
-    (hP : PickSpec pick) (hord : ∀ u l x, x ∈ ord u l ↔ x ∈ l) (hwf : WF net) (hnp : NoParallel net)
+    (hP : QueueSpec pick Good) (hord : ∀ u l x, x ∈ ord u l ↔ x ∈ l) (hwf : WF net) (hnp : NoParallel net)
     (hnear : NearestMem geo) (hs : geo.nearest net.nodes from_ = some s) (ht : geo.nearest net.nodes to_ = some t)
     (hC : Consistent (netGraph net ord) (heuristic geo net) t.id)
     (hconn : ∃ es0, (∀ e ∈ es0, e ∈ net.edges) ∧ EChain s.id es0 t.id) :
@@ -270,7 +297,7 @@ theorem C19_route (geo : Geo α) (pick : Pick α) (ord : Nat → List Nat → Li
       ∀ es', (∀ e ∈ es', e ∈ net.edges) → EChain s.id es' t.id →
         esum (ecost net.opt) es ≤ esum (ecost net.opt) es' := by
   have hsn : s.id < net.nodes.length + 1 := hwf.ids s (hnear _ _ _ hs)
-  obtain ⟨st, hst, hres⟩ := astar_optimal (adapter geo net true ord) (netGraph net ord) pick s.id t.id
+  obtain ⟨st, hst, hres⟩ := astar_optimal (adapter geo net true ord) (netGraph net ord) pick Good s.id t.id
     (net.nodes.length + 1) (net.nodes.length + 2) hP (weightsOk_net geo net ord hord hwf) hC
     (inRange_net net ord hord hwf) hsn (le_refl _)
   obtain ⟨es0, hes0, hch0⟩ := hconn
@@ -289,16 +316,16 @@ theorem C19_route (geo : Geo α) (pick : Pick α) (ord : Nat → List Nat → Li
 
 /-- **Unconnected nodes give the empty route** (and zero totals, no panic): when no chain of links
 leads from the node nearest the start point to the node nearest the end point. -/
-theorem C19_unreachable (geo : Geo α) (pick : Pick α) (ord : Nat → List Nat → List Nat) (net : Net α)
+theorem C19_unreachable (geo : Geo α) (pick : Queue α) (Good : List (Entry α) → Prop) (ord : Nat → List Nat → List Nat) (net : Net α)
     (from_ to_ : Pt α) (s t : MNode α)
-    (hP : PickSpec pick) (hord : ∀ u l x, x ∈ ord u l ↔ x ∈ l) (hwf : WF net)
+    (hP : QueueSpec pick Good) (hord : ∀ u l x, x ∈ ord u l ↔ x ∈ l) (hwf : WF net)
     (hnear : NearestMem geo) (hs : geo.nearest net.nodes from_ = some s) (ht : geo.nearest net.nodes to_ = some t)
     (hC : Consistent (netGraph net ord) (heuristic geo net) t.id)
     (hdis : ¬ ∃ es0, (∀ e ∈ es0, e ∈ net.edges) ∧ EChain s.id es0 t.id) :
     ∃ r, shortestRoute geo pick true ord net from_ to_ = .ok r ∧ r.links = [] ∧ r.distance = 0 ∧ r.time = 0 ∧
       r.startNode = s.id ∧ r.endNode = t.id := by
   have hsn : s.id < net.nodes.length + 1 := hwf.ids s (hnear _ _ _ hs)
-  obtain ⟨st, hst, hres⟩ := astar_optimal (adapter geo net true ord) (netGraph net ord) pick s.id t.id
+  obtain ⟨st, hst, hres⟩ := astar_optimal (adapter geo net true ord) (netGraph net ord) pick Good s.id t.id
     (net.nodes.length + 1) (net.nodes.length + 2) hP (weightsOk_net geo net ord hord hwf) hC
     (inRange_net net ord hord hwf) hsn (le_refl _)
   rcases hres with ⟨c, p, hd, hmin, hto, hw, hend, hcost⟩ | ⟨_, hnr, hto⟩
@@ -336,11 +363,11 @@ is symmetric; and its triangle inequality), the heap contract, the quantifier of
 speeds, no parallel links; self-loops make `build` fault), and that the two nearest nodes are connected.
 NO hypothesis relates link lengths to node positions any more: since fix 3 the code scales its heuristic
 so that it is consistent also when link end vertices are only near their nodes. -/
-theorem C19_built (geo : Geo α) (pick : Pick α) (ord : Nat → List Nat → List Nat) (o : Opt)
+theorem C19_built (geo : Geo α) (pick : Queue α) (Good : List (Entry α) → Prop) (ord : Nat → List Nat → List Nat) (o : Opt)
     (ls : List (Link α)) (net : Net α) (from_ to_ : Pt α) (s t : MNode α)
     (hb : build geo o ls = .ok net) (hsp : ∀ l ∈ ls, 0 < l.speed) (hc : GeoContract geo)
     (htri : ∀ p q r, geo.euclid p r ≤ geo.euclid p q + geo.euclid q r)
-    (hP : PickSpec pick) (hord : ∀ u l x, x ∈ ord u l ↔ x ∈ l) (hnp : NoParallel net)
+    (hP : QueueSpec pick Good) (hord : ∀ u l x, x ∈ ord u l ↔ x ∈ l) (hnp : NoParallel net)
     (hs : geo.nearest net.nodes from_ = some s) (ht : geo.nearest net.nodes to_ = some t)
     (hconn : ∃ es0, (∀ e ∈ es0, e ∈ net.edges) ∧ EChain s.id es0 t.id) :
     ∃ r es, shortestRoute geo pick true ord net from_ to_ = .ok r ∧
@@ -356,15 +383,34 @@ theorem C19_built (geo : Geo α) (pick : Pick α) (ord : Nat → List Nat → Li
     intro e he pa pb ha hb'
     have := hchord e he pa pb ha hb'
     exact ⟨this, by rw [hc.euclidSymm pb pa]; exact this⟩
-  exact C19_route geo pick ord net from_ to_ s t hP hord hwf hnp hc.nearestMem hs ht
+  exact C19_route geo pick Good ord net from_ to_ s t hP hord hwf hnp hc.nearestMem hs ht
     (heuristic_consistent geo net ord hord hwf ⟨htri, hch, hscale.1, hspeed⟩ t.id) hconn
+
+/-- **C19 with gonum's real queue** — `C19_built` instantiated with the binary heap `heapQ`
+(`heapQ_spec`): for networks built by any AddLink history and gonum's `aStarQueue` under Go's
+`container/heap`, no hypothesis about the priority queue is left. -/
+theorem C19_built_gonum (geo : Geo α) (ord : Nat → List Nat → List Nat) (o : Opt)
+    (ls : List (Link α)) (net : Net α) (from_ to_ : Pt α) (s t : MNode α)
+    (hb : build geo o ls = .ok net) (hsp : ∀ l ∈ ls, 0 < l.speed) (hc : GeoContract geo)
+    (htri : ∀ p q r, geo.euclid p r ≤ geo.euclid p q + geo.euclid q r)
+    (hord : ∀ u l x, x ∈ ord u l ↔ x ∈ l) (hnp : NoParallel net)
+    (hs : geo.nearest net.nodes from_ = some s) (ht : geo.nearest net.nodes to_ = some t)
+    (hconn : ∃ es0, (∀ e ∈ es0, e ∈ net.edges) ∧ EChain s.id es0 t.id) :
+    ∃ r es, shortestRoute geo heapQ true ord net from_ to_ = .ok r ∧
+      r.startNode = s.id ∧ r.endNode = t.id ∧
+      r.startDistance = geo.euclid from_ s.p ∧ r.endDistance = geo.euclid to_ t.p ∧
+      r.links = es.map (·.link) ∧ (∀ e ∈ es, e ∈ net.edges) ∧ EChain s.id es t.id ∧
+      r.distance = esum (·.length) es ∧ r.time = esum (·.time) es ∧
+      ∀ es', (∀ e ∈ es', e ∈ net.edges) → EChain s.id es' t.id →
+        esum (ecost net.opt) es ≤ esum (ecost net.opt) es' :=
+  C19_built geo heapQ GoodH ord o ls net from_ to_ s t hb hsp hc htri heapQ_spec hord hnp hs ht hconn
 
 /-- **Answers do not depend on the query history.**  In any history of `AddLink` and `ShortestRoute`
 calls on one network (`runOps`), the answer to a query is `shortestRoute` on the network built from
 exactly the links added before it — whatever was asked earlier.  Together with `C19_built` this is
 the property for "networks built by ANY sequence of AddLink calls" when calls are interleaved; the
 correspondence run asks the real code the same query again after further links (stale caches). -/
-theorem C19_history (geo : Geo α) (pick : Pick α) (iw : Bool) (ord : Nat → List Nat → List Nat)
+theorem C19_history (geo : Geo α) (pick : Queue α) (iw : Bool) (ord : Nat → List Nat → List Nat)
     (pre post : List (Op α)) (a b : Pt α) (net : Net α) (i : Nat) (rs : List (Except Fault (Route α)))
     (h : runOps geo pick iw ord net i (pre ++ Op.query a b :: post) = .ok rs) :
     ∃ net', buildFrom geo net i (linksOf pre) = .ok net' ∧
@@ -431,7 +477,7 @@ before the fix on the corpus case `gap` — returns the direct link of length 19
 over node 2 costs 18; all other hypotheses of `C19_route` hold.  `C19_gap_fixed` below is the same
 network built by the fixed `AddLink`. -/
 theorem C19_gap_not_minimal :
-    routeDist (shortestRoute geoW pickMin true (fun _ l => l) netW ⟨0, 0⟩ ⟨20, 0⟩) = 19 ∧
+    routeDist (shortestRoute geoW (listQ pickMin) true (fun _ l => l) netW ⟨0, 0⟩ ⟨20, 0⟩) = 19 ∧
     EChain 1 [(⟨0, 1, 2, 10, 1, 10⟩ : MEdge ℚ), ⟨1, 2, 3, 8, 1, 8⟩] 3 ∧
     (∀ e ∈ [(⟨0, 1, 2, 10, 1, 10⟩ : MEdge ℚ), ⟨1, 2, 3, 8, 1, 8⟩], e ∈ netW.edges) ∧
     esum (ecost netW.opt) [(⟨0, 1, 2, 10, 1, 10⟩ : MEdge ℚ), ⟨1, 2, 3, 8, 1, 8⟩] = 18 ∧
@@ -465,7 +511,7 @@ def gapLinks : List (Link ℚ) :=
 
 def builtDist (r : Except Fault (Net ℚ)) : ℚ × ℚ × Nat :=
   match r with
-  | .ok net => (routeDist (shortestRoute geoN pickMin true (fun _ l => l) net ⟨0, 0⟩ ⟨20, 0⟩), net.hscale, net.nodes.length)
+  | .ok net => (routeDist (shortestRoute geoN (listQ pickMin) true (fun _ l => l) net ⟨0, 0⟩ ⟨20, 0⟩), net.hscale, net.nodes.length)
   | .error _ => (0, 0, 0)
 
 /-- **The witness network built by the fixed `AddLink`**: links (0,0)–(10,0), (12,0)–(20,0) (its first
@@ -477,6 +523,7 @@ theorem C19_gap_fixed : builtDist (build geoN .distance gapLinks) = (18, 4/5, 3)
 /-! ### non-vacuity: the hypotheses are satisfiable together (a two-link network over ℚ) -/
 
 example : PickSpec (pickMin : Pick ℚ) := pickMin_spec
+example : QueueSpec (heapQ : Queue ℚ) GoodH := heapQ_spec
 
 /-- Manhattan geometry over ℚ with lookup-by-position as the "nearest" query -/
 def geoQ : Geo ℚ :=
@@ -519,7 +566,7 @@ theorem geoOkQ : GeoOk geoQ netQ := by
   · intro e he; simp [netQ] at he; rcases he with rfl | rfl <;> norm_num [netQ]
 
 /-- the hypotheses of `C19_route` are jointly satisfiable (query from (0,0) to (4,3): nodes 1 and 3) -/
-example : ∃ (r : Route ℚ) (es : List (MEdge ℚ)), shortestRoute geoQ pickMin true (fun _ l => l) netQ ⟨0, 0⟩ ⟨4, 3⟩ = .ok r ∧
+example : ∃ (r : Route ℚ) (es : List (MEdge ℚ)), shortestRoute geoQ (listQ pickMin) true (fun _ l => l) netQ ⟨0, 0⟩ ⟨4, 3⟩ = .ok r ∧
       r.startNode = 1 ∧ r.endNode = 3 ∧ EChain 1 es 3 ∧ r.links = es.map (·.link) := by
   have hs : geoQ.nearest netQ.nodes ⟨0, 0⟩ = some ⟨1, ⟨0, 0⟩⟩ := by simp [geoQ, netQ]
   have ht : geoQ.nearest netQ.nodes ⟨4, 3⟩ = some ⟨3, ⟨4, 3⟩⟩ := by
@@ -527,8 +574,8 @@ example : ∃ (r : Route ℚ) (es : List (MEdge ℚ)), shortestRoute geoQ pickMi
   have hnear : NearestMem geoQ := by
     intro l p x h; exact List.mem_of_find?_eq_some h
   have hord : ∀ (u : Nat) (l : List Nat) (x : Nat), x ∈ (fun (_ : Nat) (l : List Nat) => l) u l ↔ x ∈ l := fun _ _ _ => Iff.rfl
-  obtain ⟨r, es, h1, h2, h3, _, _, h6, _, h8, _⟩ := C19_route geoQ pickMin (fun _ l => l) netQ ⟨0, 0⟩ ⟨4, 3⟩ ⟨1, ⟨0, 0⟩⟩ ⟨3, ⟨4, 3⟩⟩
-    pickMin_spec hord wfQ npQ hnear hs ht (heuristic_consistent geoQ netQ _ hord wfQ geoOkQ 3)
+  obtain ⟨r, es, h1, h2, h3, _, _, h6, _, h8, _⟩ := C19_route geoQ (listQ pickMin) (fun _ => True) (fun _ l => l) netQ ⟨0, 0⟩ ⟨4, 3⟩ ⟨1, ⟨0, 0⟩⟩ ⟨3, ⟨4, 3⟩⟩
+    (listQ_spec _ pickMin_spec) hord wfQ npQ hnear hs ht (heuristic_consistent geoQ netQ _ hord wfQ geoOkQ 3)
     ⟨[⟨0, 1, 2, 4, 1, 4⟩, ⟨1, 2, 3, 3, 1, 3⟩], by simp [netQ], by simp [EChain]⟩
   exact ⟨r, es, h1, h2, h3, h8, h6⟩
 
